@@ -4,19 +4,20 @@ import random
 from checklib import *
 import evalkit, e2, c06, hashlib
 
-MODELS = ['/rt/rt_common.c', '/models/stdcxx.c', '/models/alloc_ledger.c', '/models/streams.c', '/models/cfitsio_model.c', '/models/libc_stubs.c']
+MODELS = ['/rt/rt_common.c', '/models/stdcxx.c', '/models/alloc_ledger.c', '/models/streams.c', '/models/cfitsio_model.c', '/models/cholmod_model.c', '/models/libc_stubs.c']
 CROOTS = ['splinetable_init', 'splinetable_free', 'readsplinefitstable', 'writesplinefitstable', 'readsplinefitstable_mem', 'writesplinefitstable_mem', 'splinetable_get_key', 'splinetable_read_key',
           'splinetable_write_key', 'splinetable_ndim', 'splinetable_order', 'splinetable_nknots', 'splinetable_knots', 'splinetable_knot', 'splinetable_lower_extent', 'splinetable_upper_extent',
           'splinetable_period', 'splinetable_ncoeffs', 'splinetable_total_ncoeffs', 'splinetable_stride', 'splinetable_coefficients', 'tablesearchcenters', 'ndsplineeval', 'ndsplineeval_gradient',
-          'ndsplineeval_deriv', 'splinetable_convolve', 'splinetable_permute']
-def cinter_ir(): return once('cinter_ir', lambda: build_ir('cinter', [VERIF + '/wrap/cinter.cpp', VERIF + '/wrap/estimate.cpp', REPO + '/src/cinter/splinetable.cpp', REPO + '/src/core/fitsio.cpp', REPO + '/src/core/convolve.cpp', REPO + '/src/core/bspline.cpp']))
+          'ndsplineeval_deriv', 'splinetable_convolve', 'splinetable_permute', 'splinetable_glamfit', 'splinetable_grideval', 'ndsparse_destroy', 'w_fit', 'w_grideval', 'w_ndsparse_delete']
+def cinter_ir(): return once('cinter_ir', lambda: build_ir('cinter', [VERIF + '/wrap/cinter.cpp', VERIF + '/wrap/estimate.cpp', REPO + '/src/cinter/splinetable.cpp', REPO + '/src/core/fitsio.cpp', REPO + '/src/core/convolve.cpp', REPO + '/src/core/bspline.cpp',
+                                                             VERIF + '/wrap/fit.cpp', REPO + '/src/fitter/glam.c', REPO + '/src/fitter/splineutil.c', REPO + '/src/fitter/cholesky_solve.c', REPO + '/src/fitter/nnls.c']))
 
 def build_objs():
     d = scratch(); evalkit.layout_header(); c06.stream_layout()
-    c = os.path.join(d, 'cinter_sym.c'); m = ir2c(cinter_ir(), c, ['/^t_/', '/^e_/'] + CROOTS)
+    c = os.path.join(d, 'cinter_sym.c'); m = ir2c(cinter_ir(), c, ['/^t_/', '/^e_/'] + CROOTS, cut=['nnls_normal_block3'])
     def cc(src):
         o = os.path.join(d, 'cinter.%s.o' % os.path.basename(src))
-        run(['gcc', '-fwrapv', '-falign-functions=16', '-O1', '-DVR_SYM', '-DVM_MAXBLK=256', '-I' + VERIF + '/rt', '-I' + VERIF + '/models', '-I' + d, '-c', src, '-o', o]); return o
+        run(['gcc', '-fwrapv', '-falign-functions=16', '-O1', '-DVR_SYM', '-DVM_MAXBLK=256', '-I' + VERIF + '/rt', '-I' + VERIF + '/models', '-I/usr/include/suitesparse', '-I' + d, '-c', src, '-o', o]); return o
     objs = pmap(cc, [c] + [VERIF + x for x in MODELS])
     o = os.path.join(d, 'cinter.rt_sym.o'); run(['g++', '-std=c++17', '-O2', '-I' + VERIF + '/rt', '-c', VERIF + '/rt/rt_sym.cpp', '-o', o])
     return objs, o, m
@@ -25,7 +26,7 @@ def build_harness(harness='e2_cinter'):
     def build():
         d = scratch(); objs, o, m = once('cinter_objs', build_objs)
         out = os.path.join(d, harness)
-        run(['g++', '-std=c++17', '-O1', '-DVR_SYM', '-I' + VERIF + '/rt', '-I' + VERIF + '/harness', '-I' + VERIF + '/models', '-I' + d, VERIF + '/harness/%s.cpp' % harness, '-o', out] + objs + [o, '-lgmpxx', '-lgmp', '-lm'])
+        run(['g++', '-std=c++17', '-O1', '-DVR_SYM', '-I' + VERIF + '/rt', '-I' + VERIF + '/harness', '-I' + VERIF + '/models', '-I/usr/include/suitesparse', '-I' + d, VERIF + '/harness/%s.cpp' % harness, '-o', out] + objs + [o, '-lgmpxx', '-lgmp', '-lm'])
         return out, m
     return once('cinter_harness_' + harness, build)
 
@@ -45,6 +46,8 @@ def build_cases(tier):
     add('memfail', [1], [0], naux=1); add('opsfail', [1, 0], [0, 0], naux=0)
     if tier != 'quick': add('memfail', [1, 0], [0, 1], naux=2); add('opsfail', [2], [1], naux=1)
     add('eval', [0] * 8, [0] * 8)
+    add('fitgrid', [1], [1]); add('fitgrid', [1, 0], [0, 1])
+    if tier != 'quick': add('fitgrid', [2, 1], [1, 0])
     return cases
 
 def replay_binary():
@@ -88,7 +91,7 @@ def run_check(tier):
                              symbolic='coefficients, knots and extents are variables (uninterpreted floats; exact reals with concrete rational knots where convolution sorts them)')
     out.cov['checker_cmd'] = 'z3 -in -t:20000 (obligations batched)'
     out.cov['trusted_base'] = ['clang-14 IR', 'ir2c.py (exception flag protocol: an exception pending after an extern "C" function returned has left it)', 'rt_sym.cpp', 'models/cfitsio_model.c, alloc_ledger.c, streams.c, stdcxx.c', 'z3']
-    out.assumptions = ['call sequences are the listed scenarios, not arbitrary histories (the wrappers keep no state besides the table the handle owns, whose histories are C20)', 'splinetable_glamfit / splinetable_grideval / ndsparse_destroy are not encoded here (their C++ operations are C09/C13/C17)',
+    out.assumptions = ['call sequences are the listed scenarios, not arbitrary histories (the wrappers keep no state besides the table the handle owns, whose histories are C20)', 'splinetable_glamfit / splinetable_grideval / ndsparse_destroy run on the semantic CHOLMOD model with the non-negative solver cut to its contract; the memory behind an ndsparse (malloc in splineutil.c) is not in the ledger: ndsparse_destroy is only required not to crash',
                        'double-valued keys are not modelled (formatting)', 'handles are valid: initialised by splinetable_init, not used after a failed readsplinefitstable left them empty']
     return out.finish()
 
